@@ -19,9 +19,10 @@
 (* are silent steps of the thread whose event comes next (silent steps only *)
 (* touch the thread's own frames, so this loses no interleaving).           *)
 (* A trace is ACCEPTED when the state reaches the next reset record; TLC    *)
-(* then prints <<"acc", tr, dev, bad>>: the named deviating actions the     *)
-(* matching behaviour needed and the property violations it went through.   *)
-(* A trace nothing matches is REJECTED (no acc line; maxpos tells where).   *)
+(* then prints <<"acc", <<tr, dev, bad>>>>: the named deviating actions the *)
+(* matching behaviour needed and the property violations it went through.  *)
+(* A trace nothing matches is REJECTED (no acc line; <<"maxpos", <<tr, n>>>> *)
+(* is the last line of the file that some behaviour could still explain).   *)
 (***************************************************************************)
 EXTENDS CollationLock, Json, IOUtils
 
@@ -34,23 +35,32 @@ Ev == TraceLog[i]
 More == i <= Len(TraceLog)
 Model == <<inst, lc0, lc, owner, frames, calls>>
 
-TInit == /\ i = 1 /\ tr = 0 /\ dev = {} /\ bad = {}
+(* every trace of the file is validated in the same run: one initial state per reset record *)
+Starts == {j \in 1..Len(TraceLog) : TraceLog[j].e = "reset" /\ TraceLog[j].tr # 0}
+
+TInit == /\ i \in Starts /\ tr = 0 /\ dev = {} /\ bad = {}
          /\ pend = [t \in Threads |-> "none"]
          /\ inst = {} /\ lc0 = "C" /\ lc = "C" /\ owner = 0
          /\ frames = [t \in Threads |-> <<>>]
          /\ calls = [t \in Threads |-> 0]
-         /\ TLCSet(1, 0)
 
-Seen == TLCSet(1, IF TLCGet(1) < i THEN i ELSE TLCGet(1))
+(* TLC register tr = the last line of trace tr that some behaviour could explain *)
+Seen == TLCSet(tr, IF TLCGet(tr) < i THEN i ELSE TLCGet(tr))
 Step1 == i' = i + 1 /\ Seen
 
 ResetEv ==
-  /\ More /\ Ev.e = "reset"
-  /\ tr = 0 \/ PrintT(<<"acc", tr, dev, bad>>)
+  /\ More /\ Ev.e = "reset" /\ tr = 0 /\ Ev.tr # 0
   /\ inst' = Range(Ev.inst) /\ lc0' = Ev.lc0 /\ lc' = Ev.lc0 /\ owner' = 0
   /\ frames' = [t \in Threads |-> <<>>] /\ calls' = calls
   /\ tr' = Ev.tr /\ dev' = {} /\ bad' = {} /\ pend' = [t \in Threads |-> "none"]
-  /\ Step1
+  /\ i' = i + 1 /\ TLCSet(Ev.tr, i)
+
+(* the next reset record is reached: the trace is a behaviour of the machine *)
+Finish ==
+  /\ More /\ Ev.e = "reset" /\ tr # 0
+  /\ PrintT(<<"acc", <<tr, dev, bad>>>>)
+  /\ i' = Len(TraceLog) + 1
+  /\ UNCHANGED <<Model, tr, dev, bad, pend>>
 
 Running(t) == IF Run(t) = 0 THEN [pc |-> "none", c |-> "cp"] ELSE frames[t][Run(t)]
 
@@ -122,14 +132,17 @@ AbortEv(t) ==
   /\ pend' = [pend EXCEPT ![t] = "none"]
   /\ UNCHANGED <<inst, lc0, calls, tr, dev, bad>> /\ Step1
 
-(* unlogged steps of the thread whose event comes next *)
+(* unlogged steps of the thread whose event comes next.  An `acquire` record carries in v  *)
+(* the locale of the NEXT `set` record of its thread (a lookahead written by the logger):   *)
+(* only collations asking for that locale can explain it, the others are not tried.         *)
+Hint(c) == Ev.v = "" \/ Loc(c) = Ev.v
 Silent(t) ==
   /\ More /\ Ev.e # "reset" /\ Ev.t = t /\ pend[t] = "none"
   /\ \/ /\ Ev.e \in {"acquire", "self_wait", "hung"}
-        /\ \E c \in Colls, k \in Kinds : Call(t, c, k)
+        /\ \E c \in Colls, k \in Kinds : Hint(c) /\ Call(t, c, k)
         /\ UNCHANGED dev
      \/ /\ Ev.e \in {"acquire", "self_wait", "hung"}
-        /\ \E c \in Colls : CallArg(t, c)
+        /\ \E c \in Colls : Hint(c) /\ CallArg(t, c)
         /\ UNCHANGED dev
      \/ (EvalArgs(t) \/ ResumeLazy(t) \/ Yield(t) \/ Return(t)) /\ UNCHANGED dev
      \/ (\E j \in 1..MaxDepth : Resume(t, j)) /\ UNCHANGED dev
@@ -142,6 +155,7 @@ Silent(t) ==
 
 TNext ==
   \/ ResetEv
+  \/ Finish
   \/ \E t \in Threads : BeginEv(t)
   \/ \E t \in Threads : EndEv(t)
   \/ \E t \in Threads : AcquireEv(t)
@@ -158,5 +172,5 @@ TraceSpec == TInit /\ [][TNext]_<<vars, tvars>>
 (* every accepted prefix keeps the structural invariants of the machine *)
 TraceInv == OneRunning /\ HoldIsOwner
 
-MaxPos == PrintT(<<"maxpos", TLCGet(1)>>)
+MaxPos == \A j \in Starts : PrintT(<<"maxpos", <<TraceLog[j].tr, TLCGet(TraceLog[j].tr)>>>>)
 =============================================================================
